@@ -135,17 +135,20 @@ class VCGen:
         key = (name, x.sexpr())
         if key not in [k for k, _, _ in self.mathterms]:
             self.mathterms.append((key, x, t))
+            ax = []
             if name == 'sqrt':
-                self.assumes.append(z3.Implies(x >= 0, z3.And(t >= 0, t * t == x)))
+                ax.append(z3.Implies(x >= 0, z3.And(t >= 0, t * t == x)))
                 for (k2, x2, t2) in self.mathterms:
                     if k2[0] == 'sqrt' and k2 != key:
-                        self.assumes.append(z3.Implies(z3.And(x >= 0, x2 >= 0), (x <= x2) == (t <= t2)))
+                        ax.append(z3.Implies(z3.And(x >= 0, x2 >= 0), (x <= x2) == (t <= t2)))
             if name == 'exp':
-                self.assumes.append(t > 0)
-                self.assumes.append((x == 0) == (t == 1))
-                self.assumes.append((x < 0) == (t < 1))
+                ax.append(t > 0)
+                ax.append((x == 0) == (t == 1))
+                ax.append((x < 0) == (t < 1))
             if name == 'log':
-                self.assumes.append(z3.Implies(x > 0, z3.And((x == 1) == (t == 0), (x < 1) == (t < 0))))
+                ax.append(z3.Implies(x > 0, z3.And((x == 1) == (t == 0), (x < 1) == (t < 0))))
+            for a in ax:
+                self.assumes.append(a); self.math_axioms.add(a.get_id())
         return t
 
     # ------------------------------------------------------------------ obligations
@@ -331,9 +334,17 @@ class VCGen:
         if op in ('/', '%'):
             self.oblige(st, 'divzero', b != 0, n, note='integer division by zero')
             q = self.cdiv(a, b)
+            r = a - b * q
+            # valid consequences of truncating division, stated explicitly to spare the solver nonlinear search
+            # (remainder has the sign of the dividend and is smaller than the divisor; quotient no larger than the dividend)
+            self.assumes.append(z3.Implies(b > 0, z3.And(z3.Implies(a >= 0, z3.And(r >= 0, r < b, q >= 0, q <= a)),
+                                                         z3.Implies(a < 0, z3.And(r <= 0, r > -b, q <= 0, q >= a)))))
+            self.assumes.append(z3.Implies(b < 0, z3.And(z3.Implies(a >= 0, z3.And(r >= 0, r < -b, q <= 0, q >= -a)),
+                                                         z3.Implies(a < 0, z3.And(r <= 0, r > b, q >= 0, q <= -a)))))
+            self.trusted.add('C integer division truncates toward zero: sign and size of quotient and remainder stated as facts')
             if op == '/':
                 return self.chk_int(st, q, t, n)
-            return a - b * q
+            return r
         cmp = {'<': a < b, '>': a > b, '<=': a <= b, '>=': a >= b, '==': a == b, '!=': a != b}
         if op in cmp:
             return BI(cmp[op])
@@ -769,6 +780,7 @@ class VCGen:
                 if self.rett == 'double':
                     v = self.todouble(v)
                 st.vars['!ret'] = v
+            self.return_states.append((st.copy(), n.get('line')))
             return {'return': st}
         if k == 'BreakStmt':
             return {'break': st}
@@ -1022,8 +1034,8 @@ class VCGen:
         nxt = merge([r.get('normal'), r.get('continue')])
         if nxt is not None:
             if spec.hints:
-                envb = SymEnv(self, nxt, {}, old=self.entry, goal=True)
-                envb2 = SymEnv(self, nxt, {}, old=self.entry)
+                envb = SymEnv(self, nxt, {}, old=self.entry, goal=True); envb.labels = {'loop': st, 'iter': h}
+                envb2 = SymEnv(self, nxt, {}, old=self.entry); envb2.labels = {'loop': st, 'iter': h}
                 for ht in spec.hints:
                     self.oblige(nxt, 'hint', envb.boolean(ht), line, note='loop %d intermediate assertion at the end of the body: %s' % (ordinal, ht), text=ht)
                     self.assumes.append(z3.Implies(nxt.guard, envb2.boolean(ht)))
@@ -1324,8 +1336,8 @@ class VCGen:
         self.fname = name; fn = self.funcs[cname]; c = self.contract = self.contracts[name]
         self.loopno = 0; self.assumes = []; self.regions = {}; self.obls = []; self.covers = []
         self.counter = {}; self.mallocs = 0; self.called = set(); self.trusted = set(); self.axioms_listed = []
-        self.cutloops = 0; self.unrolled = 0; self.terminating = 0; self.nonterminating = []
-        self.mathterms = []; self.mathfuns = {}; self.ghost_level = {}
+        self.cutloops = 0; self.unrolled = 0; self.terminating = 0; self.nonterminating = []; self.return_states = []
+        self.mathterms = []; self.mathfuns = {}; self.ghost_level = {}; self.math_axioms = set()
         self.rett = ctype(cast.ret_type(fn))
         body = cast.body_of(fn)
         # locals: types (for havoc ranges) and never-assigned `static double zero = 0.0`
@@ -1406,11 +1418,16 @@ class VCGen:
         if fin is None:
             raise Unsupported('function %s never returns' % name)
         self.cover(fin, 'function exit', body.get('line'))
-        post = fin.copy()
-        for p in self.params:
-            post.vars[p] = self.entry.vars[p]       # parameter names in `ensures` denote entry values
-        res = fin.vars.get('!ret')
-        envp = SymEnv(self, post, {}, old=self.entry, result=res, goal=True)
-        for e in c.ensures_:
-            self.oblige(fin, 'post', envp.boolean(e), 'exit', note='ensures %s' % e, text=e)
+        # one group of postcondition obligations per return statement (states are not merged: simpler VCs)
+        exits = list(self.return_states)
+        if self.rett == 'void' and r.get('normal') is not None:
+            exits.append((r['normal'], body.get('line')))
+        for (fs, rline) in exits:
+            post = fs.copy()
+            for p in self.params:
+                post.vars[p] = self.entry.vars[p]       # parameter names in `ensures` denote entry values
+            res = fs.vars.get('!ret')
+            envp = SymEnv(self, post, {}, old=self.entry, result=res, goal=True)
+            for e in c.ensures_:
+                self.oblige(fs, 'post', envp.boolean(e), 'ret%s' % rline, note='ensures (return at line %s) %s' % (rline, e), text=e)
         return self.obls
